@@ -507,7 +507,12 @@ def c16(tier, seed):
             cov.add_case(r, False)
             return
         b = r.obs[0]
-        if b["T"] != r.nb[1]:
+        rccerr = len(r.nb) > 4 and r.nb[4]
+        if rccerr:
+            # complete crossing required but impossible: the design is an error and has no sequences; the documented
+            # arithmetic defines the reduced size only "when complete crossing is not required"
+            cov.notes["rcc_error_designs_T_not_compared"] = cov.notes.get("rcc_error_designs_T_not_compared", 0) + 1
+        elif b["T"] != r.nb[1]:
             out.append(violation("C16", "T", r.case, impl=b["T"], spec=r.nb[1]))
         for oi in range(1, len(r.obs)):
             o = r.obs[oi]
